@@ -80,42 +80,51 @@ Theorem c51_frozen_result_roundtrip : forall f,
 Proof. exact frozen_roundtrip_spec. Qed.
 Print Assumptions c51_frozen_result_roundtrip.
 
-(* the keys of the result still resolve to their positions on rows of the unpickled frozen result ... *)
-Theorem c51_frozen_key_lookup_kept : forall f i k, NoDup (md_keys (fr_md f)) ->
-  nth_error (md_keys (fr_md f)) i = Some k -> frozen_index (frozen_roundtrip f) (KStr k) = Some i.
-Proof. exact frozen_key_lookup_kept. Qed.
-Print Assumptions c51_frozen_key_lookup_kept.
+(* every STRING key the frozen result answered - the result keys and aliases such as Column.key or the
+   "table_column" label - resolves to the same position on rows of the unpickled frozen result (as for a
+   directly pickled Row, c51_row_roundtrip); Column-object keys are lost *)
+Theorem c51_frozen_string_lookup_kept : forall f z,
+  frozen_index (frozen_roundtrip f) (KStr z) = frozen_index f (KStr z).
+Proof. exact frozen_string_lookup_kept. Qed.
+Print Assumptions c51_frozen_string_lookup_kept.
 
-(* ... but every other STRING key the frozen result answered before (Column.key, the "table_column"
-   label) raises KeyError afterwards, although a directly pickled Row keeps them (c51_row_roundtrip) *)
-Theorem c51_frozen_alias_lookup_refuted : exists f k i,
-  frozen_index f (KStr k) = Some i /\ frozen_index (frozen_roundtrip f) (KStr k) = None.
-Proof. exact frozen_alias_lookup_refuted. Qed.
-Print Assumptions c51_frozen_alias_lookup_refuted.
+Theorem c51_frozen_object_lookup_lost : forall f z, frozen_index (frozen_roundtrip f) (KObj z) = None.
+Proof. exact frozen_object_lookup_lost. Qed.
+Print Assumptions c51_frozen_object_lookup_lost.
+
+(* formerly refuted (finding C51-frozen-result-loses-string-aliases, fixed in /repo dd3ca1b): the alias 3
+   of the second column is still answered after the round trip *)
+Example c51_ex_frozen_alias_kept :
+  let f := mkFrozen (mkMd [1; 2] [(KStr 1, 0%nat); (KStr 2, 1%nat); (KStr 3, 1%nat); (KObj 9, 1%nat)]) false [[10; 20]] in
+  frozen_index (frozen_roundtrip f) (KStr 3) = Some 1%nat /\ frozen_index (frozen_roundtrip f) (KObj 9) = None.
+Proof. split; reflexivity. Qed.
 
 (* ---------- ext.serializer ---------- *)
 (* every persistent id resolves to the same table / column / mapper / property / mapped selectable, hence
    loads (dumps stmt) = stmt, for every statement whose persistent objects exist in the target environment
-   and whose table / column / property keys contain neither ':' nor a newline.  [b64] is
+   and whose column / property keys (and the keys of tables referenced through a column) contain no ':'.  [b64] is
    b64encode(pickle.dumps(cls)): any function into the base64 alphabet with a left inverse. *)
 Theorem c51_serializer_roundtrip_guarded :
   forall (b64 : Z -> str) (unb64 : str -> option Z) (tables : list (str * list str)) (props : Z -> list str),
-  (forall c, clean (b64 c) = true) -> (forall c, unb64 (b64 c) = Some c) ->
+  (forall c, no_colon (b64 c) = true) -> (forall c, unb64 (b64 c) = Some c) ->
   forall s, stmt_ok tables props s = true -> loads unb64 tables props (dumps b64 s) = LOk s.
 Proof. exact serializer_roundtrip_guarded. Qed.
 Print Assumptions c51_serializer_roundtrip_guarded.
 
-(* ... and it fails for a column key "a:b" / a table key "u:v" (ValueError) and a table key "w\nz" (KeyError) *)
+(* ... and it fails for a column key "a:b" / a table key "u:v" (ValueError) *)
 Theorem c51_serializer_roundtrip_refuted_colon :
   load_id (fun _ => None) ex_tables (fun _ => []) (id_of (fun _ => []) (LColumn [116] [97; 58; 98])) = LErr EUnpack /\
   load_id (fun _ => None) ex_tables (fun _ => []) (id_of (fun _ => []) (LColumn [117; 58; 118] [121])) = LErr EUnpack.
 Proof. exact serializer_roundtrip_refuted_column_colon. Qed.
 Print Assumptions c51_serializer_roundtrip_refuted_colon.
 
-Theorem c51_serializer_roundtrip_refuted_newline :
-  load_id (fun _ => None) [([119; 10; 122], [[105; 100]])] (fun _ => []) (id_of (fun _ => []) (LTable [119; 10; 122])) = LErr EKey.
-Proof. exact serializer_roundtrip_refuted_newline. Qed.
-Print Assumptions c51_serializer_roundtrip_refuted_newline.
+(* formerly refuted (finding C51-serializer-newline-in-name, fixed in /repo 973ce94): keys with a newline *)
+Example c51_ex_serializer_newline_ok :
+  load_id (fun _ => None) [([119; 10; 122], [[105; 100]; [110; 10; 109]])] (fun _ => []) (id_of (fun _ => []) (LTable [119; 10; 122]))
+    = LOk (LTable [119; 10; 122]) /\
+  load_id (fun _ => None) [([119; 10; 122], [[105; 100]; [110; 10; 109]])] (fun _ => [])
+          (id_of (fun _ => []) (LColumn [119; 10; 122] [110; 10; 109])) = LOk (LColumn [119; 10; 122] [110; 10; 109]).
+Proof. exact serializer_roundtrip_newline_ok. Qed.
 
 (* ---------- non-vacuity ---------- *)
 (* a persistent object with an expired attribute, a pending collection mutation, loader options and an
